@@ -20,6 +20,10 @@ def run(ctx):
     # two writer processes on one directory: the loser of a race reports failure and leaves the winner's record alone
     cov_over = fsfam.overtaken_writer_runs(ctx, drv, bl)
     ctx.coverage["overtaken_writer_runs"] = cov_over
+    # TwoWriters.tla: every (operation, operation, initial record, call boundary) outcome of the generator configuration on
+    # two real processes - a process that reports failure has changed nothing, whatever the other one did meanwhile
+    tw = fsfam.two_writers_model(ctx, thorough)
+    fsfam.two_writer_runs(ctx, drv, tw, {"torn": "C08", "loser": "C15", "others": "C15", "seq": "C15", "crash": "C15"})
     # read-only operations: no mutating system call at all
     ro = 0
     for op in ("auth", "exists", "list", "listfull", "check"):
